@@ -133,15 +133,34 @@ def check(ctx, timeout):
     n_sites = len(set(sites))
     # ---- read_data_page (v1 dictionary indices / RLE booleans)
     sites2 = []
-    eng = Engine(funcs=funcs, handlers=_handlers(res, sites2), opaque_calls=True)
+    h2 = _handlers(res, sites2)
+    skip_seen = []
+
+    def h_skip(eng, p, args, kw, node):
+        # the level block to skip is the one of THIS PAGE: its length depends on the page's value count
+        want = ("header", "data_page_header", "num_values")
+        got = args[1].tag if isinstance(args[1], Opaque) else None
+
+        def flat(t):
+            return tuple(x for y in t for x in (flat(y) if isinstance(y, tuple) else (y,))) if isinstance(t, tuple) else (t,)
+        ok = got is not None and tuple(str(x) for x in flat(got)) == want
+        skip_seen.append(ok)
+        eng.oblige(p, f"skip_definition_bytes.count_is_page_num_values[read_data_page:L{node.lineno}]", "post", z3.BoolVal(ok), node,
+                   note="skip_definition_bytes is given the PAGE header's num_values (got: %s)" % (got,))
+        return [(p, NONE)]
+    h2["skip_definition_bytes"] = h_skip
+    eng = Engine(funcs=funcs, handlers=h2, opaque_calls=True)
     p = Path()
     try:
-        eng.run("read_data_page", p, [Opaque("f"), Opaque("helper"), Opaque("header"), Opaque("metadata"), PyB(False), PyB(False)])
+        eng.run("read_data_page", p, [Opaque("f"), Opaque("helper"), Opaque("header"), Opaque("metadata"),
+                                      PyB(eng.fresh("skip_nulls", z3.BoolSort())), PyB(False)])
     except Unsupported as ex:
         res.add("hybrid.callsite[read_data_page].out_of_reach", UNKNOWN, None, 0.0, "engine", str(ex))
-    for ob in [ob for ob in eng.oblig if ob.name.startswith("hybrid.")]:
+    for ob in [ob for ob in eng.oblig if ob.name.startswith(("hybrid.", "skip_definition_bytes."))]:
         st, be, secs, m = backends.discharge(ob, timeout)
         res.add(ob.name, st, {"z3_model": str(m)[:300]} if m is not None else None, secs, be, ob.note or ob.kind)
+    if not skip_seen:
+        res.add("skip_definition_bytes.callsite[read_data_page].reached", UNKNOWN, None, 0.0, "engine", "call not reached")
     n_sites += len(set(sites2))
     if len(set(sites2)) < 2:
         res.add("hybrid.callsite[read_data_page].sites_reached", UNKNOWN, None, 0.0, "engine",
@@ -162,6 +181,60 @@ def check(ctx, timeout):
             res.add(f"hybrid.length_is_bytes[{site}]", PROVED if ln is not None and "num_values" not in ast.unparse(ln) else REFUTED,
                     None if ln is not None and "num_values" not in ast.unparse(ln) else {"site": site, "length_expression": ast.unparse(ln)},
                     0.0, "ast", "the `length` argument is a byte length (not a value count)")
+    # ---- encoding.read_plain_boolean -> read_bitpacked1: the kernel's precondition "the run's bytes are present"
+    enc, _, _ = parse_module("fastparquet/encoding.py")
+    ctx.function("encoding.read_plain_boolean", enc["read_plain_boolean"].sha, enc["read_plain_boolean"].report)
+    count = z3.Int("count")
+    nbytes = z3.Int("raw_nbytes")
+
+    class Buf(Arr):
+        def __init__(self, n):
+            super().__init__(z3.IntVal(1))
+            self.n = n
+
+        def call_method(self, eng, p, name, args, kw, node):
+            if name == "view":
+                return [(p, Custom(self))]
+            return super().call_method(eng, p, name, args, kw, node)
+
+        def slice(self, eng, p, lo, hi, node):
+            return Custom(self)
+
+    def hb_frombuffer(eng, p, args, kw, node):
+        return [(p, Custom(Buf(nbytes)))]
+
+    def hb_empty(eng, p, args, kw, node):
+        return [(p, Custom(Buf(eng.as_int(args[0], p))))]
+
+    def hb_numpyio(eng, p, args, kw, node):
+        a = args[0]
+        return [(p, Custom(IO(a.h if isinstance(a, Custom) else None)))]
+    reached = []
+
+    def hb_rb1(eng, p, args, kw, node):
+        f, cnt, o = args
+        c = eng.as_int(cnt, p)
+        reached.append(1)
+        fin = f.h.arr.n if isinstance(f, Custom) and isinstance(f.h, IO) and isinstance(f.h.arr, Buf) else None
+        eng.oblige(p, "bitpacked1.count_in_range[read_plain_boolean]", "post", z3.And(c >= 0, c <= 2 ** 31 - 8), node)
+        eng.oblige(p, "bitpacked1.input_bytes_present[read_plain_boolean]", "post",
+                   ((c + 7) / 8 <= fin) if fin is not None else z3.BoolVal(False), node,
+                   note="the kernel reads ceil(count_arg / 8) input bytes unchecked: a valid page of `count` values holds ceil(count / 8)")
+        return [(p, NONE)]
+    eng = Engine(funcs=enc, handlers={"np.frombuffer": hb_frombuffer, "np.empty": hb_empty, "NumpyIO": hb_numpyio, "read_bitpacked1": hb_rb1},
+                 opaque_calls=True)
+    p = Path()
+    p.pc += [count >= 0, count <= 2 ** 31 - 16, nbytes >= (count + 7) / 8]        # requires: a valid PLAIN boolean page
+    try:
+        eng.run("read_plain_boolean", p, [Opaque("raw_bytes"), PyI(count), NONE])
+    except Unsupported as ex:
+        res.add("bitpacked1.callsite[read_plain_boolean].out_of_reach", UNKNOWN, None, 0.0, "engine", str(ex))
+    for ob in [ob for ob in eng.oblig if ob.name.startswith("bitpacked1.")]:
+        st, be, secs, m = backends.discharge(ob, timeout)
+        res.add(ob.name, st, {"count": backends.model_value(m, count), "raw_nbytes": backends.model_value(m, nbytes)} if m is not None else None,
+                secs, be, ob.note or ob.kind)
+    if not reached:
+        res.add("bitpacked1.callsite[read_plain_boolean].reached", UNKNOWN, None, 0.0, "engine", "the kernel call was not reached")
     if n_sites < 6:
         ctx.engine_error(f"C03 call sites: only {n_sites} decoder call sites found (expected >= 6)")
     return res
